@@ -465,7 +465,7 @@ class IntegerSequence(SequenceBase):
             else:
                 prev_point = point - self.i_step
         ret = self._get_point_in_bounds(prev_point)
-        if self.exclusions and ret in self.exclusions:
+        if self.exclusions and ret and ret in self.exclusions:
             return self.get_prev_point(ret)
         return ret
 
@@ -481,8 +481,9 @@ class IntegerSequence(SequenceBase):
                 break
             prev_point = sequence_point
             sequence_point = self.get_next_point(sequence_point)
-        if self.exclusions and prev_point in self.exclusions:
-            return self.get_nearest_prev_point(prev_point)
+        if self.exclusions and prev_point and prev_point in self.exclusions:
+            # (only the start point can be excluded here)
+            return self.get_prev_point(prev_point)
         return prev_point
 
     def get_next_point(self, point):
